@@ -20,8 +20,30 @@ SCOPE = ['photutils/profiles/core.py', 'photutils/profiles/radial_profile.py', '
          'photutils/psf/photometry.py', 'photutils/psf/utils.py', 'photutils/psf/groupers.py',
          'photutils/utils/errors.py', 'photutils/utils/_convolution.py', 'photutils/utils/_quantity_helpers.py', 'photutils/utils/_moments.py',
          'photutils/utils/cutouts.py', 'photutils/utils/interpolation.py', 'photutils/utils/_stats.py', 'photutils/utils/footprints.py',
-         'photutils/datasets/images.py', 'photutils/morphology/core.py', 'photutils/morphology/non_parametric.py']
+         'photutils/datasets/images.py', 'photutils/morphology/core.py', 'photutils/morphology/non_parametric.py',
+         # second batch: the remaining library modules
+         'photutils/aperture/attributes.py', 'photutils/aperture/bounding_box.py', 'photutils/aperture/circle.py', 'photutils/aperture/converters.py',
+         'photutils/aperture/ellipse.py', 'photutils/aperture/rectangle.py', 'photutils/datasets/model_params.py', 'photutils/datasets/noise.py',
+         'photutils/isophote/ellipse.py', 'photutils/isophote/fitter.py', 'photutils/isophote/geometry.py', 'photutils/isophote/harmonics.py',
+         'photutils/isophote/integrator.py', 'photutils/isophote/isophote.py', 'photutils/isophote/model.py', 'photutils/isophote/sample.py',
+         'photutils/psf/epsf.py', 'photutils/psf/epsf_stars.py', 'photutils/psf/functional_models.py', 'photutils/psf/gridded_models.py',
+         'photutils/psf/image_models.py', 'photutils/psf/matching/fourier.py', 'photutils/psf/matching/windows.py', 'photutils/psf/model_helpers.py',
+         'photutils/psf/simulation.py', 'photutils/segmentation/finder.py', 'photutils/utils/_parameters.py', 'photutils/utils/_round.py',
+         'photutils/utils/depths.py']
 FUEL = 8
+
+# units that are NOT claimed by the static analysis, each with its reason (the dynamic sweep still covers them)
+EXCLUDE = {
+    'photutils/aperture/attributes.py:ApertureAttribute': 'descriptor: __set__/__delete__ store the value on the aperture instance they are attached to, by design',
+    'photutils/aperture/attributes.py:PixelPositions': 'descriptor (see ApertureAttribute)',
+    'photutils/aperture/attributes.py:ScalarAngleOrValue': 'descriptor (see ApertureAttribute)',
+    'photutils/isophote/ellipse.py:Ellipse': 'fit_image writes fix_* / linear into the EllipseGeometry it was given ("for good", known finding F18); '
+                                             'fit_isophote appends to the isophote_list argument by contract',
+    'photutils/isophote/fitter.py:EllipseFitter': 'the fitter updates the EllipseSample it was constructed with (its working object) by design',
+    'photutils/isophote/isophote.py:IsophoteList': 'a list wrapper: sort / append / extend act on the wrapped list by design',
+    'photutils/utils/depths.py:ImageDepth': 'path-correlated guards (`np.any(mask)` decides both the call and the copy): rejected by the path-insensitive analysis, '
+                                            'no mutation observed dynamically',
+}
 
 
 def collect():
@@ -109,7 +131,7 @@ def scan(rounds=3):
         summaries = {nm: (sorted(v[0]), sorted(v[1])) for nm, v in new.items() if v[0] or v[1]}
     entries, items = [], []
     for f, n in funcs:
-        if E.is_private(n.name):
+        if E.is_private(n.name) or f'{f}:{n.name}' in EXCLUDE:
             continue
         ps, ctx, prog, tr = E.translate_function(n, summaries)
         full = E.size(prog)
@@ -117,7 +139,7 @@ def scan(rounds=3):
         entries.append({'name': f'{f}:{n.name}', 'kind': 'function', 'params': ps, 'k': len(ps), 'prog': prog, 'nv': E.nvars(prog, len(ps)), 'full_size': full})
         items.append((len(ps), 0, list(range(len(ps))), prog))
     for f, c in classes:
-        if E.is_private(c.name):
+        if E.is_private(c.name) or f'{f}:{c.name}' in EXCLUDE:
             continue
         ins, ctx, prog, _ = E.translate_class(c, summaries)
         full = E.size(prog)
